@@ -57,7 +57,7 @@ def binary(variant='hooks'):
 
 class Result(object):
     __slots__ = ('args', 'out', 'err', 'rc', 'signal', 'timed_out', 'wall', 'maxrss_kb', 'trace',
-                 'stdin_accepted', 'env', 'mode', 'pty_size', 'stdin', 'cwd', 'parent_argv')
+                 'stdin_accepted', 'env', 'mode', 'pty_size', 'stdin', 'cwd', 'parent_argv', 'hwm_kb')
 
     def crashed(self):
         return self.timed_out or self.signal is not None
@@ -183,9 +183,47 @@ def _pump(proc, stdin_data, out_fd, err_fd, in_fd, timeout, is_pty):
 NEUTRAL_PARENT = ['git', 'verif-neutral-parent']
 
 
+class _HwmPoller(object):
+    def __init__(self, pid, via_shell):
+        import threading
+        self.pid = pid
+        self.via_shell = via_shell
+        self.target = None if via_shell else pid
+        self.hwm_kb = None
+        self._stop = threading.Event()
+        self._t = threading.Thread(target=self._run, daemon=True)
+
+    def start(self):
+        self._t.start()
+
+    def stop(self):
+        self._stop.set()
+        self._t.join(timeout=2)
+
+    def _run(self):
+        while not self._stop.is_set():
+            try:
+                if self.target is None:
+                    with open('/proc/%d/task/%d/children' % (self.pid, self.pid)) as f:
+                        kids = f.read().split()
+                    if kids:
+                        self.target = int(kids[0])
+                if self.target is not None:
+                    with open('/proc/%d/status' % self.target) as f:
+                        for line in f:
+                            if line.startswith('VmHWM:'):
+                                v = int(line.split()[1])
+                                if self.hwm_kb is None or v > self.hwm_kb:
+                                    self.hwm_kb = v
+                                break
+            except (OSError, ValueError):
+                pass
+            self._stop.wait(0.01)
+
+
 def run_delta(args, stdin=b'', env=None, cwd=None, mode='pipe', pty_size=(24, 80), timeout=20.0,
               variant='hooks', trace=False, path_prefix=None, preload=None, parent_argv=NEUTRAL_PARENT,
-              exe=None, home=None, wrapper=None, stdin_is_none=False):
+              exe=None, home=None, wrapper=None, stdin_is_none=False, measure_rss=False):
     """Run delta once.  args: list of str (without argv[0]).  stdin: bytes.
     parent_argv: (list of str, [0] is the impersonated command name) delta is started as a child of a
     /bin/sh process whose /proc/<pid>/cmdline reads like parent_argv.  The default is a "git" command with
@@ -240,6 +278,13 @@ def run_delta(args, stdin=b'', env=None, cwd=None, mode='pipe', pty_size=(24, 80
                             start_new_session=True, **popen_kw)
     if slave is not None:
         os.close(slave)
+    res.hwm_kb = None
+    poller = None
+    if measure_rss:
+        # ru_maxrss of a child also counts what this (large) process had resident when it forked; the high-water mark
+        # of the delta process itself is sampled from /proc while it runs
+        poller = _HwmPoller(proc.pid, parent_argv is not None)
+        poller.start()
     out_fd = master if mode == 'pty' else proc.stdout.fileno()
     in_fd = None if stdin_is_none else os.dup(proc.stdin.fileno())
     if not stdin_is_none:
@@ -256,6 +301,9 @@ def run_delta(args, stdin=b'', env=None, cwd=None, mode='pipe', pty_size=(24, 80
             os.killpg(proc.pid, signal.SIGKILL)
         except OSError:
             pass
+    if poller is not None:
+        poller.stop()
+        res.hwm_kb = poller.hwm_kb
     try:
         _, status, ru = os.wait4(proc.pid, 0)
         proc.returncode = 0
